@@ -424,6 +424,14 @@ def make_program(rng, arch, nfuncs=8, force_last_noreturn=False):
                 f.length = f.insns[-1][0] + len(f.insns[-1][1].raw)
                 f.emit(I("call" if arch == "x86" else "bl"), "body", x_call(rng) if arch == "x86" else a_word(0x94000000 | rng.below(1 << 26)))
                 f.noreturn = True
+    # one DWARF-deferred function with Darwin-style CFI always keeps its epilogue (the noreturn choice above can take the
+    # only one there is; seeded change C02-x86-6 - no instruction analysis for DWARF-deferred entries - shows only there)
+    def _has_epi(f):
+        return any(ph == "epilogue" for (_o, _i, ph) in f.insns)
+    if not any(f.dwarf and getattr(f, "darwin_cfi", False) and _has_epi(f) and not getattr(f, "noreturn", False) for f in funcs):
+        g = mk(rng, "f%d" % len(funcs), "dwarf-frame")
+        g.darwin_cfi = True
+        funcs.append(g)
     rng.shuffle(funcs)
     nr = [f for f in funcs if getattr(f, "noreturn", False)]
     lastnr = rng.chance(1, 2) if nr else False       # (drawn as before; the C13 stream can insist)
